@@ -36,7 +36,7 @@ func extract(a hx.ExtractArgs) error {
 	if err != nil {
 		return err
 	}
-	lf := hx.NewLeanFile("Gms.Generated.C32", src.Path, tsrc.Path, esrc.Path)
+	lf := hx.NewLeanFile("Gms.Generated.C32", src.Path, tsrc.Path, esrc.Path, a.Repo+"/sql/types/json.go")
 
 	// quoteEscape: the 256-entry table of the compiled package
 	tbl := istrings.VerifQuoteEscape()
@@ -168,6 +168,9 @@ func extract(a hx.ExtractArgs) error {
 		return true
 	})
 	lf.DefStringList("sortKeysLess", cmp)
+	if err := extractNum(a, lf); err != nil {
+		return err
+	}
 	return lf.Write(a.Out)
 }
 
@@ -540,7 +543,10 @@ func run(a hx.RunArgs) error {
 		"escapes, UTF-8 fragments and \\u sequences; documents: random JSON values (depth ≤ 3, objects with keys of different " +
 		"lengths and a blank, arrays, scalars) with paths that mostly follow the document (members, indices, last, last-N, " +
 		"past-the-end, strays) under the six mutation modes, lookup, the extract∘set law, SQL-level JSON functions; " +
-		"non-trivial = the string needs an escape or is ill-formed / the mutation changed the document or the lookup found a value"
+		"number literals with integral values around 2^53, 2^63, 2^64, beyond uint64, short decimals × 10^e (e ≤ 300), long digit " +
+		"strings, -0, in plain and . e E spellings (parse → print → parse against the model), fractional literals and documents with " +
+		"number leaves (round trip on the real code, API and SQL); " +
+		"non-trivial = the string needs an escape or is ill-formed / the number is ≥ 2^53 in magnitude or spelled with . e E / the mutation changed the document or the lookup found a value"
 	r := hx.NewRand(a.Seed).Fork()
 
 	quoteCase := func(s string) {
@@ -702,6 +708,9 @@ func run(a hx.RunArgs) error {
 			out.OracleFail(id, "-", "JSON_QUOTE failed: "+res.Class())
 		}
 	}
+
+	// --- JSON numbers: literal → held number → printed text → held number (num.go) -----------------
+	runNumbers(a, out, hx.NewRand(a.Seed+7777).Fork(), e, sqlStr)
 
 	// --- documents ---------------------------------------------------------------------------------
 	nDoc := 6000
